@@ -25,7 +25,7 @@ FORMAT_TWIN = True          # ambient monitor: every System matrix is also reque
 META = {
     "level_text": "Exploration: generated sphere-plane and sphere-sphere contact systems; gap and slip velocity decided by an independent geometric model, every derivative level by T/W/D oracles on the System-level contact methods; exposed methods must return or raise NotImplementedError. Held on the systems and states generated.",
     "level_note": "float64; plane orientation constant; finite-difference oracles with measured uncertainty.",
-    "technique": "runtime return-value monitors with independent geometry model and T/D/W finite-difference oracles",
+    "technique": "runtime return-value monitors with independent geometry model and T/D/W finite-difference oracles + ambient format-twin monitor (every System matrix also requested as coo/csr/csc/array)",
 }
 CASE_TIMEOUT = 180
 KINDS = ["s2p:rigid_body", "s2p:rigid_body", "s2p:point_mass", "s2s:rigid_body:rigid_body", "s2s:rigid_body:point_mass",
